@@ -135,6 +135,7 @@ TRUSTED = [
     'Rm: the values the accessors compute are abstract (a parameter of the theorems); the reference value of an attribute is what a fresh request object returns for it when nothing else has been read',
     'Fr: a file-like object is its content plus a per-call cap on what read(n) returns (lib_respspace.Probe implements exactly that); the block size 8192 is falcon\'s _STREAM_BLOCK_SIZE / the PEP 3333 file_wrapper block size',
     'asyncio.wait_for(app, 2 s) deciding "the ASGI application did not return"',
+    'wire_of (harness/props/c06.py): the HTTP request a falcon.testing call denotes, written from the docstrings of simulate_request / TestClient / ASGIConductor (defaults overridden by the call\'s headers, content_type= / json= precedence, params encoding, Host / User-Agent / Content-Length / Cookie lines, default port by scheme)',
     'Wq: Qs.parseQS (C08) as parse_query_string, Fw.accessRoute (C09) as the header-derived access route, Hp.parseHost / Hp.pyInt (C09) as parse_host / int() - each tied to the code by its own property\'s correspondence and again, end to end, by the third correspondence here',
 ]
 ASSUMPTIONS = [
@@ -144,13 +145,27 @@ ASSUMPTIONS = [
     'Wq.strict_server_path_agree; it puts its own address into scope["server"] (an unknown client may be reported by leaving "client" out or as None: no restriction since fix 9e26a7e / F36). Each exclusion has a machine-checked witness that it is necessary',
     'documented per-interface differences are normalised away: req.headers key case (compared lower-cased), chunk boundaries of body iteration (bytes compared), header order / name case of the response (compared as multiset of lower-cased pairs), reason phrase (ASGI carries only the code)',
     'requests that wsgiref.validate refuses before calling the app (malformed Content-Length) cannot be expressed through falcon.testing on WSGI and are compared on the other three paths only',
-    '204/304 responses that carry a Content-Type (set by the application, or the F16 class) make wsgiref.validate inside falcon.testing raise on WSGI; they are compared on the other three paths only (C05 reports F16)',
+    '204/304 responses that carry a Content-Type (set by the application, or the F16 class) make wsgiref.validate inside falcon.testing raise on WSGI; they are compared on the other three paths only (C05 reports F16)',    'how falcon.testing TRANSLATES keyword arguments into one wire request is its own convention; argument combinations whose denotation is not unambiguous are not generated (one line each):',
+    '(D) a call header that names a client default header in ANOTHER spelling (the case-sensitive dict merge sends both values): calls override defaults in the spelling of the default only',
+    '(E) repeated names in a list of pairs when the client has default headers or content_type= / json= is passed (the dict merge keeps the last pair only): repeated field lines are drawn only where nothing is merged',
+    '(A) cookies= beside a Cookie header (the header wins on WSGI, cookies= on ASGI); cookies= on OPTIONS (dropped by the helpers)',
+    '(B) an explicitly empty body, body="" / b"" (Content-Length: 0 on ASGI, no Content-Length on WSGI); a Content-Length header that contradicts body=',
+    '(G) cookies= as a list of pairs (the documented iterable form raises AttributeError on both stacks): cookies= is a mapping',
+    'also not generated: root_path without a leading slash, custom method tokens through falcon.testing',
 ]
 RULE = ('random wire-level requests: method x path from 0-4 segments (plain, percent-encoded UTF-8, invalid UTF-8, %2F, %20, sub-delims, empty segments, trailing slash, routed /items/{id}) x '
         'raw query (repeated keys, blanks, CSV, percent-encoded UTF-8 / invalid bytes, "+", bare keys) x 0-7 headers from 24 header grammars in random case, non-singletons repeated, latin-1 values, present-but-empty values (5 %, Accept 15 %), '
         'Host forms (name, name:port, IPv6, absent on HTTP/1.0, invalid port) x body (empty, JSON valid/invalid, urlencoded form, binary) with matching Content-Length or a malformed Content-Length on an empty body x '
         'scheme x server address x client address x root_path x request options (strip_url_path_trailing_slash, keep_blank_qs_values, auto_parse_qs_csv) x body access mode (read, sized reads, iterate, get_media, none) x '
         'C05 response plans (without SSE) x C06\'s own responder / application dimensions: the ORDER in which the responder reads the request - the 45 public attributes and 5 blocks of method calls (get_header*, get_header_as_*, get_param*, get_cookie_values, client_accepts / client_prefers) in the documented order (25 %), in a random permutation with 0-6 attributes read a second / third time, or everything in one random order and then every attribute again in another (15 %); the same script on all four paths, recorded in the case; a re-read value must equal the first and every value must have its documented type (a private sentinel is a failure) - x App(request_type=) stock or a do-nothing subclass (1/3) x App(response_type=) stock, do-nothing subclass, render_body override x media drawn in 35 % of the media plans from the falsy JSON documents {} [] 0 0.0 false "" x file-like streams that honour read(n) and return SHORT reads before the end (30 % of the file-like streams; with and without close(), optional failing call): content of 0 ... 40000 bytes (boundaries 8191/8192/8193, 16383/16384/16385), the i-th read returns at most caps[i] bytes: one byte at a time, random caps from 1 ... 30000, a pattern that changes (full blocks then short reads or the reverse), bursts of 8190 ... 8194 / 4096 / 1 bytes around the 8 KiB block size, or a regular file for comparison; the payloads are compared complete. Each case is run four times: spec WSGI driver, spec ASGI driver (random event chunking, optional keys omitted), falcon.testing.simulate_request on the WSGI app and on the ASGI app. '
+        'Entry points and sequences of falcon.testing (sequence cases): ONE client object per stack - the module functions simulate_request(app, ...) / simulate_<verb>(app, path, ...) (15 %), or TestClient(app, headers=D) on the WSGI app and, on the ASGI app, '
+        'TestClient(app, headers=D) (sync methods), "async with TestClient(app, headers=D) as conductor" (25 % of them entered a second time on the same client) or "async with ASGIConductor(app, headers=D)" - D = None (25 %), an empty mapping (5 %) or 1-3 default headers from 16 names in canonical or lower case; '
+        'on it a sequence of 1-4 requests (mostly 2-3), each through a random spelling of the entry point (simulate_request(method, path), simulate_<verb>(path), the aliases <verb>(path) / request(method, path); on conductors 15 % of the GETs through simulate_get_stream / get_stream with the body read from the StreamedResult), '
+        'each with its own keyword arguments: headers= not passed / None / {} / [] / a mapping / a list of pairs (1-3 headers in random case, values with optional whitespace, second field lines only where nothing is merged; 50 % overriding 1-2 of the client\'s defaults in the spelling of the default, 4 % an own Host), '
+        'the query in the path / query_string= / params= with and without params_csv= (str, int, float, lists, empty list, reserved characters, non-ASCII) / params= overridden by query_string=, body= str or bytes with the type in headers= / content_type= / both, json= (incl. falsy documents; overriding body= and content_type=), '
+        'protocol=, host=, port= (int or numeric str), remote_addr=, root_path= (None, "", mounted), http_version= (1.1, 1.0, 1, 2, 2.0), extras= (a server-defined key, 1/3 of them also the client address per interface), cookies= (not on OPTIONS, not beside a Cookie header), '
+        'asgi_chunk_size=, wsgierrors= (always; the responder writes a line that must arrive in the stream of THAT call), file_wrapper=; its own response plan, read script, body mode and request options. Every request of the sequence is compared - request seen by the responder and response - with the spec-faithful driver\'s result for the wire request '
+        'that this single call denotes by the documentation (client defaults overridden by the call\'s headers, nothing else carried over: no headers, cookies, extras or query of earlier calls); non-trivial = at least two requests and own headers in one of them; distinct = distinct (client, sequence of calls, plans). '
         'non-trivial = at least one header besides Host/User-Agent or a query or a body; distinct = distinct (wire request, options, plan). '
         'Header-store cases (second correspondence): 0-8 field lines drawn with repeats from a per-case pool of singleton / non-singleton / look-alike (Content-Typ, Http-Content-Type, SS) / "_" names in random '
         'per-character case, values incl. empty, latin-1, commas, Content-Length grammars (signs, underscores, NBSP); 60 % repaired into the theorem domain (singletons once, no "_"); 2-8 looked-up names per case '
@@ -168,8 +183,8 @@ PARTIAL = ('The Lean theorems cover the response side (finalization of any respo
            'content_type, content_length agree for every header list of the domain (Wr.*), and (2) the request line and the connection: method, path, query_string, params, root_path / app, scheme, host, port, netloc, '
            'remote_addr, access_route agree for every wire request of the domain and every liberty of the servers, incl. scope["client"] = None (Wq.request_view_agree; path and scheme without any hypothesis; the method / query / mount-point / '
            'client-address exclusions proved exact, the others necessary); (3) the memoized accessors: under every history of reads on one request object (any order, any repetition) every read returns the value its accessor computes, on both classes, so the agreement of the stacks does not depend on the order of reads (Rm.*; the values computed by accessors outside Wr / Wq are a parameter of these theorems); and on the response side also file-like streams by their read contract: every short-read pattern is delivered completely and identically by both stacks (Fr.*). The remaining request attributes (uri / url / relative_uri / prefix and the forwarded_* family, subdomain, typed header accessors, cookies, body, media), the http_version '
-           '(no Request attribute on either stack; only falcon.asgi.App validates scope["http_version"]) and the equivalence of falcon.testing.simulate_request with the spec-faithful drivers rest on the differential '
-           'comparison only (translation-validation strength, not proof).')
+           '(no Request attribute on either stack; only falcon.asgi.App validates scope["http_version"]) and the equivalence of falcon.testing (simulate_request, simulate_<verb>, TestClient, ASGIConductor; sequences of requests on one client object) '
+           'with the spec-faithful drivers rest on the differential comparison only (translation-validation strength, not proof).')
 JOBS = {'quick': 4, 'thorough': 16}
 
 SINGLETONS = ('content-length', 'content-type', 'cookie', 'expect', 'from', 'host', 'max-forwards', 'referer', 'user-agent')
@@ -257,6 +272,216 @@ def gen_wire(rnd, H):
     w = H.Wire(method, target, headers, body, scheme, server, client, rnd.choice(['', '', '/app', '/a/b']))
     w.http10 = http10
     return w
+
+
+# ---------------------------------------------------------------------- falcon.testing: entry points, call arguments, sequences on one client
+# A *call* is what a test author writes: the keyword arguments of one simulate_*() call.  `wire_of` is the HTTP request that call denotes by the
+# documentation of falcon.testing (docstrings of simulate_request / TestClient / ASGIConductor / create_environ / create_scope) - written from the docs,
+# not from the helpers - as a lib_http.Wire, i.e. what a spec-faithful server would have parsed off the socket for it.
+HVX = dict(HV, **{'Content-Type': ['text/plain', 'application/json', 'application/x-www-form-urlencoded'], 'X-Api-Version': ['3', '4'], 'X-Trace': ['abc', 'xyz']})
+SEQ_DEFAULT_POOL = ['Accept', 'X-Custom', 'Authorization', 'X-Forwarded-For', 'Accept-Language', 'X-Int', 'User-Agent', 'If-None-Match', 'Range',
+                    'X-Forwarded-Proto', 'Referer', 'Forwarded', 'Content-Type', 'X-Api-Version', 'X-Real-Ip', 'If-Modified-Since']
+SEQ_OWN_POOL = [h for h in HVX if h not in ('Content-Type',)]
+SEQ_PARAMS = [{'a': '1', 'b': 'two words'}, {'a': ['1', '2', '3']}, {'x': '\xe9', 'n': 42}, {'k': ''}, {'a': [1, 'x,y'], 'flag': 'true'}, {'q': 'a&b=c', 'f': 1.5},
+              {}, {'a': []}, {'k k': 'v/v', 'n': -7}, {'a': ['only']}]
+SEQ_JSON = [{'a': 1, 'b': ['x', 2]}, [1, '\xe9'], 'str', 0, {}, [], False, {'\xe9': '\xfc'}]
+SEQ_VERBS = ('GET', 'HEAD', 'POST', 'PUT', 'OPTIONS', 'PATCH', 'DELETE')     # the methods that have simulate_<verb>() / <verb>() entry points
+DEFAULT_HOST = 'falconframework.org'                                          # documented default of host=
+
+
+def gen_defaults(rnd):
+    """headers= of TestClient(app, headers=...) / ASGIConductor(app, headers=...): None, an empty mapping, or 1-3 default headers"""
+    r = rnd.random()
+    if r < 0.25:
+        return None
+    if r < 0.3:
+        return {}
+    d = {}
+    for n in rnd.sample(SEQ_DEFAULT_POOL, rnd.randint(1, 3)):
+        d[rnd.choice([n, n, n.lower()])] = rnd.choice(HVX[n])
+    return d
+
+
+def gen_call(rnd, defaults, idx):
+    """One simulate_*() call: method, path and the keyword arguments (only those the author passes are present)."""
+    method = rnd.choice(['GET', 'GET', 'GET', 'POST', 'PUT', 'HEAD', 'DELETE', 'PATCH', 'OPTIONS'])
+    r = rnd.random()
+    if r < 0.15:
+        path = '/items/' + rnd.choice(['42', 'caf%C3%A9', 'a%2Fb', '%ff']) + rnd.choice(['', '', '/', '/sub/7', '/sub/x'])
+    elif r < 0.22:
+        path = '/'
+    else:
+        path = '/' + '/'.join(rnd.choice(SEGS) for _ in range(rnd.randint(1, 3))) + rnd.choice(['', '', '/'])
+    kw = {}
+    # ---- the query: in the path, query_string=, params= (+ params_csv=), or params= overridden by query_string=
+    qform = rnd.choice(['none', 'none', 'in_path', 'query_string', 'params', 'params_csv', 'params+query_string'])
+    query = rnd.choice(QUERIES[2:])
+    if qform == 'in_path':
+        path += '?' + query
+    elif qform == 'query_string':
+        kw['query_string'] = rnd.choice([query, query, ''])
+    elif qform in ('params', 'params_csv', 'params+query_string'):
+        kw['params'] = dict(rnd.choice(SEQ_PARAMS))
+        if qform == 'params_csv' or rnd.random() < 0.2:
+            kw['params_csv'] = qform == 'params_csv' or rnd.random() < 0.5
+        if qform == 'params+query_string':
+            kw['query_string'] = rnd.choice([query, ''])
+    # ---- content: body= (str / bytes), json=, content_type=
+    bodyless = method in ('GET', 'HEAD', 'OPTIONS')
+    ctype, how = None, 'none'
+    r = rnd.random()
+    if r < (0.8 if bodyless else 0.25):
+        pass
+    elif r < (0.9 if bodyless else 0.6):
+        ctype, body = rnd.choice(BODIES[1:9])
+        kw['body'] = body if rnd.random() < 0.7 else body.decode('latin-1')           # a str body is sent UTF-8 encoded
+        how = rnd.choice(['header', 'content_type', 'both', 'none']) if ctype else 'none'
+    else:
+        kw['json'] = rnd.choice(SEQ_JSON)
+        if rnd.random() < 0.3:
+            kw['content_type'] = 'text/x-overridden-by-json'
+        if rnd.random() < 0.2:
+            kw['body'] = 'overridden by json='
+    # ---- headers of this call: not passed / None / empty / mapping / list of pairs
+    dnames = {n.lower(): n for n in (defaults or {})}
+    own = []
+    hform = rnd.choice(['absent', 'absent', 'None', 'empty', 'dict', 'dict', 'dict', 'list', 'list', 'list'])
+    if hform in ('dict', 'list'):
+        # where falcon.testing merges the call's headers with something (client defaults, content_type=, json=) names are not repeated (see ASSUMPTIONS)
+        merged = bool(defaults) or how in ('content_type', 'both') or 'json' in kw
+        for n in rnd.sample(SEQ_OWN_POOL, rnd.randint(1, 3)):
+            if n.lower() in dnames:
+                continue
+            nm = rnd.choice([n, n.lower(), n.upper()])
+            val = '' if rnd.random() < 0.05 else rnd.choice(HVX[n])
+            if rnd.random() < 0.05 and val:
+                val = rnd.choice([' ' + val, val + ' ', '\t' + val + '  '])           # optional whitespace around a field value is not part of it (RFC 9110 5.5)
+            own.append([nm, val])
+            if hform == 'list' and not merged and n.lower() not in SINGLETONS and rnd.random() < 0.3:
+                own.append([rnd.choice([n, n.lower(), n.upper(), nm]), rnd.choice(HVX[n])])      # a second field line with that name (list form only)
+        if defaults and rnd.random() < 0.5:
+            # "These defaults may be overridden by passing values for the same headers to one of the simulate_*() methods" (in the spelling of the default)
+            for low in rnd.sample(sorted(dnames), rnd.randint(1, min(2, len(dnames)))):
+                canon_name = next(k for k in HVX if k.lower() == low)
+                own.append([dnames[low], rnd.choice(HVX[canon_name])])
+        if rnd.random() < 0.04:
+            own.append(['Host', rnd.choice(HOSTS[:6])])
+        rnd.shuffle(own)
+        if hform == 'dict':
+            seen = set()
+            own = [h for h in own if not (h[0] in seen or seen.add(h[0]))]
+    kw_headers = {'absent': 'absent', 'None': None, 'empty': rnd.choice(['{}', '[]'])}.get(hform, own)
+    if how in ('header', 'both') and isinstance(kw_headers, list) and 'content-type' not in dnames:
+        kw_headers.append([rnd.choice(['Content-Type', 'content-type']), ctype if how == 'header' else 'text/x-overridden'])
+    elif how == 'header':
+        how = 'content_type'
+    if how in ('content_type', 'both'):
+        kw['content_type'] = ctype
+    if kw_headers != 'absent':
+        kw['headers'] = kw_headers
+    # ---- connection
+    if rnd.random() < 0.35:
+        kw['protocol'] = rnd.choice(['http', 'https', 'https'])
+    if rnd.random() < 0.35:
+        kw['host'] = rnd.choice(['example.com', 'localhost', '10.0.0.5', 'a.b.c.example'])
+    if rnd.random() < 0.3:
+        kw['port'] = rnd.choice([80, 443, 8080, '8443', 65535])
+    if rnd.random() < 0.35:
+        kw['remote_addr'] = rnd.choice([None, '10.0.0.1', '192.0.2.7', '2001:db8::1'])
+    if rnd.random() < 0.3:
+        kw['root_path'] = rnd.choice([None, '', '/app', '/a/b'])
+    if rnd.random() < 0.25:
+        kw['http_version'] = rnd.choice(['1.1', '1.0', '1', '2', '2.0'])
+    r = rnd.random()
+    if r < 0.25:
+        kw['extras'] = {'verif.extra': f'token-{idx}-{rnd.randint(0, 999)}'}        # rendered per interface by call_kwargs
+        if r < 0.08:
+            kw['extras']['client-address'] = rnd.choice(['9.9.9.9', '198.51.100.2'])
+    has_cookie_header = any(h[0].lower() == 'cookie' for h in own) or 'cookie' in dnames
+    if method != 'OPTIONS' and not has_cookie_header and rnd.random() < 0.25:
+        kw['cookies'] = rnd.choice([{'sid': 'abc'}, {'a': '1', 'b': '2'}, {'a': 'x y', 'k': 'v'}, {}])
+    style = rnd.choice(['simulate_request', 'simulate_<verb>', 'simulate_<verb>', '<verb>', 'request'])
+    return {'method': method, 'path': path, 'kw': kw, 'header_form': hform, 'style': style, 'asgi_chunk_size': rnd.choice([None, 1, 3, 4096])}
+
+
+def wire_of(H, call, defaults, user_agent):
+    """The HTTP request (lib_http.Wire) + server-defined keys that the call denotes, by the documentation of falcon.testing."""
+    import json as _json
+    from urllib.parse import quote
+    kw = call['kw']
+    path, _, query = call['path'].partition('?')
+    if 'query_string' in kw and kw['query_string'] is not None:                      # "If specified, overrides params"
+        query = kw['query_string']
+    elif kw.get('params'):
+        parts = []
+        for k, v in kw['params'].items():
+            if isinstance(v, list):
+                if kw.get('params_csv', False):                                         # 'thing=1,2,3'
+                    parts.append(quote(k, safe='') + '=' + ','.join(quote(str(x), safe='') for x in v))
+                else:                                                                   # 'thing=1&thing=2&thing=3'
+                    parts += [quote(k, safe='') + '=' + quote(str(x), safe='') for x in v]
+            else:
+                parts.append(quote(k, safe='') + '=' + quote(str(v), safe=''))
+        query = '&'.join(parts)
+    own = kw.get('headers')
+    own = [] if own in (None, '{}', '[]') else [(n, v) for n, v in own]
+    headers = []
+    if defaults:                                   # "Default headers to set on every request ... may be overridden by passing values for the same headers";
+        given = {n.lower() for n, _ in own}        # "Header names are not case-sensitive"
+        headers += [(n, v) for n, v in defaults.items() if n.lower() not in given]
+    headers += own
+    body = kw.get('body')
+    body = b'' if body is None else body.encode('utf-8') if isinstance(body, str) else body
+    if kw.get('content_type') is not None:         # "takes precedence over any value set for the Content-Type header in the headers keyword argument"
+        headers = [h for h in headers if h[0].lower() != 'content-type'] + [('Content-Type', kw['content_type'])]
+    if kw.get('json') is not None:                 # "overrides body and sets the Content-Type header to 'application/json', overriding ... content_type or headers"
+        body = _json.dumps(kw['json'], ensure_ascii=False).encode('utf-8')
+        headers = [h for h in headers if h[0].lower() != 'content-type'] + [('Content-Type', 'application/json')]
+    headers = [(n, (v or '').strip()) for n, v in headers]
+    if not any(n.lower() == 'user-agent' for n, _ in headers):                          # "If a User-Agent header is not provided, it will default to ..."
+        headers.append(('User-Agent', user_agent))
+    if kw.get('cookies') is not None:
+        headers.append(('Cookie', '; '.join(f'{k}={v}' for k, v in kw['cookies'].items())))
+    if body:
+        headers.append(('Content-Length', str(len(body))))
+    scheme = kw.get('protocol', 'http')
+    host = kw.get('host', DEFAULT_HOST)
+    port = int(kw['port']) if kw.get('port') is not None else (80 if scheme == 'http' else 443)   # "Defaults to the standard port used by the given scheme"
+    http10 = kw.get('http_version', '1.1') in ('1.0', '1')
+    if not http10 and not any(n.lower() == 'host' for n, _ in headers):                  # "If set to '1.0', the Host header will not be added"
+        headers.append(('Host', host if port == (80 if scheme == 'http' else 443) else f'{host}:{port}'))
+    client = (kw['remote_addr'], 49152) if kw.get('remote_addr') else None            # unknown client: falcon documents 127.0.0.1 as what the app sees
+    extra = {}
+    if kw.get('extras'):
+        extra['verif.extra'] = kw['extras']['verif.extra']
+        if 'client-address' in kw['extras']:                                             # "Additional values to add to the WSGI environ dictionary or the ASGI scope"
+            client = (kw['extras']['client-address'], 4321)
+    w = H.Wire(call['method'], path + ('?' + query if query else ''), headers, body, scheme, (host, port), client, kw.get('root_path') or '')
+    w.http10 = http10
+    return w, extra
+
+
+def call_kwargs(call, asgi, H, file_wrapper):
+    """The keyword arguments exactly as the author passes them, as fresh objects (so that nothing a call does to them can reach another call)."""
+    import copy
+    import io
+    kw = copy.deepcopy(call['kw'])
+    if 'headers' in kw:
+        h = kw['headers']
+        kw['headers'] = {} if h == '{}' else [] if h == '[]' else h if h is None else ([tuple(x) for x in h] if call['header_form'] == 'list' else dict(h))
+    if 'extras' in kw:
+        ex = {'verif.extra': kw['extras']['verif.extra']}
+        if 'client-address' in kw['extras']:
+            ex.update({'client': [kw['extras']['client-address'], 4321]} if asgi else {'REMOTE_ADDR': kw['extras']['client-address']})
+        kw['extras'] = ex
+    if asgi:
+        if call['asgi_chunk_size'] is not None:
+            kw['asgi_chunk_size'] = call['asgi_chunk_size']
+    else:
+        kw['wsgierrors'] = io.StringIO()
+        if file_wrapper:
+            kw['file_wrapper'] = H.FileWrapper
+    return kw
 
 
 # ---------------------------------------------------------------------- what a responder reads, and in which order
@@ -494,12 +719,19 @@ def run(ctx):
 
     def w_handle(req, resp, kwargs):
         d = digest_sync(req, kwargs)
+        if CUR.get('seq'):
+            d['server-defined key verif.extra'] = ['ok', canon(req.env.get('verif.extra'))]
+            req.env['wsgi.errors'].write('verif: a line for the error log\n')
+            d['what the responder writes to wsgi.errors reaches the stream given for this request'] = ['ok', CUR['errs'].getvalue().count('verif: a line for the error log\n') == 1]
         body_sync(req, CUR['mode'], d)
         CUR['digest'] = d
         CUR['probe'] = R.fill(resp, CUR['plan'], False, CUR['snap'])
 
     async def a_handle(req, resp, kwargs):
         d = digest_sync(req, kwargs)
+        if CUR.get('seq'):
+            d['server-defined key verif.extra'] = ['ok', canon(req.scope.get('verif.extra'))]
+            d['what the responder writes to wsgi.errors reaches the stream given for this request'] = ['ok', True]
         await body_async(req, CUR['mode'], d)
         CUR['digest'] = d
         CUR['probe'] = R.fill(resp, CUR['plan'], True, CUR['snap'])
@@ -574,12 +806,14 @@ def run(ctx):
         return {'status': code, 'headers': sorted([k.lower(), R.norm_cookie(v) if k.lower() == 'set-cookie' else v] for k, v in pairs), 'body': body, 'raised': raised}
 
     def setup(p, mode):
-        CUR.update(plan=p, mode=mode, snap={}, probe=None, digest=None, reads=p['reads'])
+        CUR.update(plan=p, mode=mode, snap={}, probe=None, digest=None, reads=p['reads'], seq=bool(p.get('seq')))
 
-    def via_spec_wsgi(w, p, mode, opts):
+    def via_spec_wsgi(w, p, mode, opts, extra=None):
         def once():
             setup(p, mode)
-            env = H.wsgi_environ(w, file_wrapper=H.FileWrapper if p['fw'] else None)
+            CUR['errs'] = io.StringIO()
+            env = H.wsgi_environ(w, file_wrapper=H.FileWrapper if p['fw'] else None, errors=CUR['errs'])
+            env.update(extra or {})      # PEP 3333: "server-defined variables" / ASGI: extension keys - a server may add its own
             return H.drive_wsgi(get_app(False, p, opts), env)
         rec, hung = H.guarded(once)
         if hung:
@@ -589,7 +823,7 @@ def run(ctx):
         st, hl, _ = rec['start'][0]
         return CUR['digest'], norm_resp(int(st[:3]), hl, b''.join(rec['chunks']), type(rec['iter_exc']).__name__ if rec['iter_exc'] else None), rec
 
-    def via_spec_asgi(w, p, mode, opts):
+    def via_spec_asgi(w, p, mode, opts, extra=None):
         setup(p, mode)
         cuts = sorted(rnd.randint(0, len(w.body)) for _ in range(rnd.choice([0, 0, 1, 2, 5]))) if w.body else ([0] if rnd.random() < 0.2 else [])
         evs = H.asgi_events(w.body, cuts)
@@ -599,6 +833,7 @@ def run(ctx):
             if not e['more_body'] and rnd.random() < 0.5:
                 del e['more_body']
         scope = H.asgi_scope(w)
+        scope.update(extra or {})
         if rnd.random() < 0.2:
             del scope['raw_path']  # optional in the spec
         for timeout in (3.0, 20.0):
@@ -668,6 +903,212 @@ def run(ctx):
             return None
         k = ks[0]
         return f'{len(ks)} attribute(s) differ, first: {k}: {a.get(k)!r} vs {b.get(k)!r}'
+
+    # ------------------------------------------------------------------ falcon.testing: every entry point, sequences of requests on ONE client object
+    UA = 'falcon-client/' + falcon.__version__
+    A_KINDS = ['TestClient', 'TestClient', 'async with TestClient', 'async with TestClient', 'ASGIConductor', 'ASGIConductor', 'ASGIConductor']
+
+    def sim_outcome(res):
+        """a Result / an exception -> the view compared with the spec driver (as in via_testing)"""
+        if isinstance(res, BaseException):
+            if isinstance(res, R.StreamFault):
+                return {'raised': 'StreamFault'}
+            if isinstance(res, asyncio.TimeoutError):
+                return {'hang': True}
+            if isinstance(res, (AssertionError, ValueError)):
+                return {'testing_raised': type(res).__name__ + ': ' + str(res)[:200]}
+            return {'app_raised': type(res).__name__ + ': ' + str(res)[:200]}
+        return {'status': res['status_code'], 'headers': {k.lower(): (R.norm_cookie(v) if k.lower() == 'set-cookie' else v) for k, v in res['headers'].items()},
+                'cookies': sorted(res['cookies']), 'body': res['content']}
+
+    def plain(res):
+        return {'status_code': res.status_code, 'headers': dict(res.headers), 'cookies': list(res.cookies), 'content': res.content}
+
+    def sync_call(target, app, call, kw):
+        """one request through the synchronous API: the module functions (target None) or a TestClient"""
+        verb, st = call['method'].lower(), call['style']
+        if target is None:
+            if st in ('simulate_request', 'request'):
+                return ft.simulate_request(app, call['method'], call['path'], **kw) if st == 'request' else ft.simulate_request(app, method=call['method'], path=call['path'], **kw)
+            return getattr(ft, 'simulate_' + verb)(app, call['path'], **kw)
+        if st == 'simulate_request':
+            return target.simulate_request(call['method'], call['path'], **kw)
+        if st == 'request':
+            return target.request(call['method'], call['path'], **kw)
+        return getattr(target, ('simulate_' if st == 'simulate_<verb>' else '') + verb)(call['path'], **kw)
+
+    async def conductor_call(c, call, kw):
+        verb, st = call['method'].lower(), call['style']
+        if call.get('stream_api'):
+            # simulate_get_stream(): "an async context manager that can be used to obtain a managed StreamedResult"
+            async with (c.simulate_get_stream if st != '<verb>' else c.get_stream)(call['path'], **kw) as sr:
+                first = await sr.stream.read()
+            rest = await sr.stream.read()
+            return {'status_code': sr.status_code, 'headers': dict(sr.headers), 'cookies': list(sr.cookies), 'content': first + rest}
+        if st == 'simulate_request':
+            return plain(await c.simulate_request(call['method'], call['path'], **kw))
+        if st == 'request':
+            return plain(await c.request(call['method'], call['path'], **kw))
+        return plain(await getattr(c, ('simulate_' if st == 'simulate_<verb>' else '') + verb)(call['path'], **kw))
+
+    def run_client(asgi, kind, defaults, steps, opts_of):
+        """ONE client object of the given kind, the calls of the sequence in order; per request: (what the responder saw, outcome)."""
+        app = get_app(asgi, steps[0]['plan'], opts_of[0])
+        out = []
+
+        def before(i):
+            st = steps[i]
+            get_app(asgi, st['plan'], opts_of[i])          # (the request options are attributes of the app the client holds)
+            setup(st['plan'], st['mode'])
+            kw = call_kwargs(st['call'], asgi, H, st['plan']['fw'])
+            CUR['errs'] = kw.get('wsgierrors')
+            return kw
+
+        def after(res):
+            out.append((CUR['digest'], sim_outcome(res)))
+
+        def mk_defaults():
+            return None if defaults is None else dict(defaults)
+
+        if kind in ('module functions', 'TestClient'):
+            target = None if kind == 'module functions' else ft.TestClient(app, headers=mk_defaults())
+            for i in range(len(steps)):
+                kw = before(i)
+                try:
+                    res = plain(sync_call(target, app, steps[i]['call'], kw))
+                except Exception as e:  # noqa
+                    res = e
+                after(res)
+            return out
+
+        async def go():
+            async def one(c, i):
+                kw = before(i)
+                try:
+                    res = await asyncio.wait_for(conductor_call(c, steps[i]['call'], kw), 8.0)
+                except Exception as e:  # noqa
+                    res = e
+                after(res)
+                return isinstance(res, asyncio.TimeoutError)
+            if kind == 'ASGIConductor':
+                async with ft.ASGIConductor(app, headers=mk_defaults()) as c:
+                    for i in range(len(steps)):
+                        if await one(c, i):
+                            break
+            else:
+                client = ft.TestClient(app, headers=mk_defaults())
+                # the documented pattern: "async with client as conductor"; the client object is reusable for a second context, and
+                # its synchronous methods remain available
+                cut = steps[0].get('second_context_at')
+                for lo, hi in ((0, cut), (cut, len(steps))) if cut else ((0, len(steps)),):
+                    async with client as c:
+                        for i in range(lo, hi):
+                            if await one(c, i):
+                                return
+        loop.run_until_complete(go())
+        return out
+
+    def sequences_part():
+        NAME = 'falcon.testing, every entry point, sequences of requests on one client object = spec driver for that single request ({stack}): {what}'
+        for si in range(ctx.n(1500, 20000)):
+            if hangs[0] >= 2:
+                break
+            # the module functions simulate_request(app, ...) / simulate_<verb>(app, ...) (no client object, hence no client headers), or one client object per stack
+            wkind, akind = ('module functions', 'module functions') if rnd.random() < 0.15 else ('TestClient', rnd.choice(A_KINDS))
+            defaults = None if wkind == 'module functions' else gen_defaults(rnd)
+            n = rnd.choice([1, 2, 2, 3, 3, 4])
+            shared = R.gen_plan(rnd, sse_ok=False)           # one client object = one app: what is fixed at App() construction is shared by the sequence
+            steps, opts_of = [], []
+            for i in range(n):
+                call = gen_call(rnd, defaults, i)
+                p = R.gen_plan(rnd, sse_ok=False)
+                p.update(method=call['method'], dflt=shared['dflt'], resp_class=shared['resp_class'], req_class=rnd.choice(['std', 'sub']) if i == 0 else steps[0]['plan']['req_class'],
+                         reads=rnd.choice(['documented order', 'documented order', None]), seq=True)
+                if p['reads'] is None:
+                    p['reads'] = gen_reads(rnd, ATTRS, GROUPS)
+                if p['stream'] is not None and p['stream']['fail'] is not None and rnd.random() < 0.7:
+                    p['stream']['fail'] = None
+                mode = rnd.choice(BODY_MODES)
+                w, extra = wire_of(H, call, defaults, UA)
+                steps.append({'call': call, 'plan': p, 'mode': mode, 'wire': w, 'extra': extra})
+                opts_of.append({'strip': rnd.random() < 0.3, 'keep_blank': rnd.random() < 0.5, 'csv': rnd.random() < 0.5})
+            if akind != 'module functions' and akind != 'TestClient':
+                for st in steps:
+                    if st['call']['method'] == 'GET' and rnd.random() < 0.15:
+                        st['call']['stream_api'] = True
+                if akind == 'async with TestClient' and n >= 2 and rnd.random() < 0.25:
+                    steps[0]['second_context_at'] = rnd.randint(1, n - 1)
+            case = {'client_headers': defaults, 'wsgi_client': wkind, 'asgi_client': akind,
+                    'sequence': [{'call': st['call'], 'denotes_wire_request': st['wire'].describe(), 'server_defined_keys': st['extra'], 'http10_without_host': st['wire'].http10,
+                                  'options': opts_of[i], 'body_mode': st['mode'], 'plan': st['plan']} for i, st in enumerate(steps)]}
+
+            # the reference: every request of the sequence on its own, through the spec-faithful drivers
+            ref = {False: [], True: []}
+            for i, st in enumerate(steps):
+                dw, rw, wrec = via_spec_wsgi(st['wire'], st['plan'], st['mode'], opts_of[i], extra=st['extra'])
+                ex = dict(st['extra'])
+                da, ra, arec = via_spec_asgi(st['wire'], st['plan'], st['mode'], opts_of[i], extra=ex)
+                if 'hang' in rw or 'hang' in ra:
+                    hangs[0] += 1
+                ref[False].append((dw, rw, wrec))
+                ref[True].append((da, ra, arec))
+                what = diff(dw, da)
+                ctx.oracle('stacks agree: request seen by the responder', what is None, what, dict(case, request_index=i))
+                what = None if rw == ra else f'WSGI {rw!r} vs ASGI {ra!r}'
+                ctx.oracle('stacks agree: response', what is None, what, dict(case, request_index=i))
+
+            for asgi, kind in ((False, wkind), (True, akind)):
+                stack = 'asgi' if asgi else 'wsgi'
+                got, hung = H.guarded(lambda: run_client(asgi, kind, defaults, steps, opts_of), (20.0, 90.0))
+                if hung:
+                    hangs[0] += 1
+                    ctx.oracle(NAME.format(stack=stack, what='request seen by the responder'), False, 'the sequence did not return', case)
+                    continue
+                for i, st in enumerate(steps):
+                    dspec, rspec, rec = ref[asgi][i]
+                    if i >= len(got):
+                        ctx.oracle(NAME.format(stack=stack, what='request seen by the responder'), False, f'request #{i + 1} was not made: an earlier request of the sequence did not return', dict(case, request_index=i))
+                        break
+                    dt, rt = got[i]
+                    if 'hang' in rt:
+                        hangs[0] += 1
+                    if ('testing_raised' in rt and not asgi and 'Content-Type header found in a' in rt['testing_raised'] and rspec.get('status') in R.TYPELESS
+                            and any(k == 'content-type' for k, _ in rspec['headers'])):
+                        ctx.count('testing_wsgi_refused_by_wsgiref_validate(204/304 response with a Content-Type)')
+                        continue
+                    where = f'request #{i + 1} of {len(steps)} on one {kind} ({st["call"]["style"]}{", streamed result" if st["call"].get("stream_api") and asgi and kind not in ("module functions", "TestClient") else ""}): '
+                    what = diff(dspec, dt)
+                    ctx.oracle(NAME.format(stack=stack, what='request seen by the responder'), what is None, None if what is None else where + 'spec driver vs falcon.testing: ' + what, dict(case, request_index=i))
+                    if 'status' in rspec:
+                        pairs = (rec['start'][0][1] if not asgi else H.asgi_response(rec)[1])
+                        view = as_testing_view(dict(rspec, headers_in_order=pairs))
+                    else:
+                        view = rspec
+                    what = None if view == rt else where + f'spec driver {view!r} vs falcon.testing {rt!r}'
+                    ctx.oracle(NAME.format(stack=stack, what='response'), what is None, what, dict(case, request_index=i))
+
+            # ---- what the evidence says about the distribution
+            own_names = [{h[0].lower() for h in (st['call']['kw'].get('headers') or []) if isinstance(h, list)} for st in steps]
+            ctx.seen(json.dumps(['seq', case], sort_keys=True, default=repr), n >= 2 and any(own_names))
+            ctx.count(f'seq_length_{n}')
+            ctx.count('seq_wsgi_client_' + wkind.replace(' ', '_'))
+            ctx.count('seq_asgi_client_' + akind.replace(' ', '_'))
+            ctx.count('seq_client_headers_' + ('None' if defaults is None else 'empty_mapping' if not defaults else 'given'))
+            if defaults and any(own_names[j] - own_names[i] for i in range(n) for j in range(i)):
+                ctx.count('seq_client_with_default_headers:_a_later_request_lacks_a_header_an_earlier_one_passed')
+            if defaults and any({k.lower() for k in defaults} & o for o in own_names):
+                ctx.count('seq_with_a_default_header_overridden_by_a_call')
+            if steps[0].get('second_context_at'):
+                ctx.count('seq_TestClient_entered_twice_as_conductor_context')
+            for st in steps:
+                c = st['call']
+                ctx.count('seq_call_style_' + c['style'] + ('(+simulate_get_stream on conductors)' if c.get('stream_api') else ''))
+                ctx.count('seq_call_headers_' + c['header_form'])
+                for k in c['kw']:
+                    if k != 'headers':
+                        ctx.count('seq_call_passes_' + k + '=')
+            if si < 1:
+                ctx.sample({'sequence_case': case})
 
     sess = ctx.session('response finalization through the spec-faithful drivers = Fz model (both stacks)', 'fzdriver')
 
@@ -772,6 +1213,7 @@ def run(ctx):
             ctx.count('with_an_empty_Accept' + ('_and_an_HTTPError_to_render' if p.get('raise') in ('notfound', 'httperror') else ''))
         if ci < 1:
             ctx.sample({'case': case, 'what_the_responder_saw (identical on all four paths)': dw, 'response (identical)': rw})
+    sequences_part()
     sess.finish()
     header_lookup_part(ctx, rnd, falcon, H, json)
     target_part(ctx, rnd, falcon, H, json)
@@ -1281,10 +1723,11 @@ LEVEL_TEXT = ('Proof, partial. Machine-checked (Lean 4): the response-finalizati
               '(Rm.wsgi_history_independent / asgi_history_independent / stacks_histories_agree; the transcribed cell tables pass a decidable well-formedness check, a table with a neighbour\'s cell in a guard is rejected and has a witness), '
               'tied to the real classes by a fourth correspondence over generated read histories; a file-like response stream given by its read contract (short reads before the end, any cap pattern, any positive block size) is '
               'delivered completely and identically by both stacks (Fr.wsgi_payload_complete / asgi_payload_complete), tied through the response correspondence (the driver derives the read(8192) results from the contract). '
-              'The rest of the request side (URL reconstruction, the forwarded_* family, typed accessors, cookies, body under every chunking, media) and the equivalence of falcon.testing.simulate_request with the '
-              'spec-faithful drivers are established by differential comparison on generated wire-level requests only.')
+              'The rest of the request side (URL reconstruction, the forwarded_* family, typed accessors, cookies, body under every chunking, media) and the equivalence of falcon.testing with the '
+              'spec-faithful drivers - every entry point (module functions, TestClient, TestClient as conductor context, ASGIConductor, their simulate_<verb> / alias spellings, simulate_get_stream), every documented keyword argument, and sequences of requests on one client object, '
+              'each request compared with the single wire request it denotes - are established by differential comparison on generated requests only.')
 LEVEL_NOTE = ('Trusted: Lean kernel + standard axioms; harness/lib_http.py as the meaning of "a PEP 3333 server" / "an ASGI server"; the comparison harness. '
               'On the request side the theorems cover the header stores (model Wr: code points < 256, str.upper()/lower() tables checked against Python on every run) and the request line / connection attributes '
               '(model Wq: CPython UTF-8 decoding as U8.decodeReplace / a strict twin, str(int) as Nat.toDigits); the other request attributes and '
               'falcon.testing rest on the differential comparison (translation-validation strength).')
-TECHNIQUE = 'Lean 4 relational theorems (WSGI tail = ASGI tail; WSGI header store = ASGI header store via a common canonical form; WSGI view = ASGI view of one wire request, per attribute and as a record; history-independence of the memoized accessors by a state invariant over all read histories; completeness of the stream pump by induction over all short-read patterns) + 4-way differential comparison: spec WSGI driver / spec ASGI driver / falcon.testing on each stack, on generated wire-level requests'
+TECHNIQUE = 'Lean 4 relational theorems (WSGI tail = ASGI tail; WSGI header store = ASGI header store via a common canonical form; WSGI view = ASGI view of one wire request, per attribute and as a record; history-independence of the memoized accessors by a state invariant over all read histories; completeness of the stream pump by induction over all short-read patterns) + 4-way differential comparison: spec WSGI driver / spec ASGI driver / falcon.testing on each stack, on generated wire-level requests, and on generated sequences of falcon.testing calls on one client object (every entry point) against the wire request each call denotes'
